@@ -20,7 +20,7 @@ func init() {
 	register(&Rule{ID: "C01.NILELEM", Min: 3, Doc: "a parse result that may be nil is not stored as an element of a sequence or mapping without a nil test", Run: runC01NilElem})
 	register(&Rule{ID: "C14.WHOLE", Min: 4, Doc: "the type of a placeholder stands for the whole scalar only when the scalar is exactly one placeholder", Run: runC14Whole})
 	register(&Rule{ID: "C11.SCAN", Min: 1, Doc: "the scan over the placeholders of a scalar stops early only on a syntax error", Run: runC11Scan})
-	register(&Rule{ID: "C03.REPLACE", Min: 20, Doc: "a node filled key by key is the same object for the whole key loop", Run: runC03Replace})
+	register(&Rule{ID: "C03.REPLACE", Min: 40, Doc: "a node filled key by key is the same object for the whole key loop, and a node created by a key case is attached to the tree before the iteration ends", Run: runC03Replace})
 	register(&Rule{ID: "C16.WIDTH", Min: 2, Doc: "the caret line of a snippet is measured in terminal cells throughout", Run: runC16Width})
 	register(&Rule{ID: "C03.DEFER", Min: 1, Doc: "a value parsed before the node it belongs to exists is handed over when the node is created (key order independence)", Run: runC03Defer})
 }
@@ -1146,6 +1146,7 @@ func runC03Replace(c *Ctx) {
 	if n == 0 {
 		c.undecided("parse.go|nodes filled in loops", token.NoPos, "no node filled key by key found")
 	}
+	c03Attach(c)
 }
 
 // ---- C16.WIDTH ----
